@@ -13,6 +13,7 @@ import (
 
 	"github.com/idena-network/idena-go/blockchain/types"
 	"verif/mc/chainmc"
+	"verif/mc/fsync"
 	"verif/mc/chainprop"
 	"verif/mc/crashdb"
 	"verif/mc/replica"
@@ -347,7 +348,7 @@ func main() {
 	} else {
 		run.Cap("part 1 skipped (VERIF_C09_ONLY=fastsync)")
 	}
-	fastSyncPart(run)
+	fsync.Part(run, true)
 	run.Set("evaluations", run.Get("crash_points"))
 	run.Set("distinct_nontrivial", run.Get("operations"))
 	run.Assume = append(run.Assume,
